@@ -25,6 +25,10 @@ CLAIMS = {
         "text": "Symbolic execution of http.dump_cookie (quote-free fast path, UTF-8 encoding, escaping regex and table lookup, attribute assembly) followed by sansio.http.parse_cookie and http.parse_cookie (pair splitting regex, un-escaping, decoding) on a value of n solver code points: every path's query asserts that the emitted value is ASCII made of RFC 6265 cookie-octets, or a quoted string whose body contains only printable non-separator characters and backslash escapes, and that parsing returns exactly the value; a second harness asserts the attribute list is exactly the requested one, canonical and in fixed order, with max_age a solver integer and every flag combination.",
         "note": "Trusted: interpreter/regex/codec models (validated per path natively), z3. Bounds: value <= 3 code points in U+0000..U+07FF (quick; 4 thorough), 1 (2 thorough) code point over all of Unicode incl. surrogates; concrete token key. A raw space inside a quoted value is accepted (pinned by the suite). IDNA domains, expires dates and the test client's jar are outside.",
     },
+    "C14": {
+        "text": "Symbolic execution of security.safe_join together with the stdlib path helpers it calls (posixpath.join/isabs interpreted from source; normpath via the stdlib's own pure-Python twin) on 1-3 untrusted components whose characters are solver variables over every 8-bit code point (incl. '/', '.', backslash, NUL), against absolute, relative, empty, root and nested base directories: on every path the query 'result is not None and normpath(result) lies outside normpath(base)' is unsat. utils.secure_filename on ASCII input: output alphabet, no leading dot, idempotence.",
+        "note": "Trusted: interpreter/primitive models (per-path native replay against the real C normpath), the normpath twin (differentially tested against the C function on 22k strings each run), z3. Bounds: 1 component <= 6 chars, 2 <= 4, 3 <= 2 (quick). Filesystem end-to-end (send_from_directory, SharedDataMiddleware), Windows separators and non-ASCII filenames are outside the claim.",
+    },
     "C09": {
         "text": "Bounded symbolic execution of wsgi.LimitedStream (readinto/readall/exhaust/on_exhausted/on_disconnect) from the real source: data length, limit, is_max, read sizes, per-call fragment sizes of the underlying stream and the fault point are solver variables; every sequence of 2 (quick) / 3 (thorough) operations over read/readinto/readall/exhaust is explored and each path's query (no over-read, prefix-exactness, readinto buffer contract, disconnect/too-large only when warranted) is unsat. Holds for every value within the bounds, says nothing beyond them.",
         "note": "Trusted: the interpreter's model of Python semantics (validated per path by native replay), z3, the io.RawIOBase.read stub (documented definition), the nondeterministic underlying-stream stub. Bounds: data <= 6/8 bytes, 2/3 operations.",
